@@ -423,8 +423,8 @@ func checkStateComparisons(e *Engine, r *Report) {
 		out := map[*types.Var]bool{}
 		forEachInstr(fn, func(in ssa.Instruction) {
 			b, ok := in.(*ssa.BinOp)
-			if !ok || (b.Op != token.EQL && b.Op != token.NEQ) {
-				return
+			if !ok || cmpString(b.Op) == "" {
+				return // ==, != and the ordering comparisons: any test of "did the hard state change"
 			}
 			fx, _, ok1 := loadedField(stripConv(b.X))
 			fy, _, ok2 := loadedField(stripConv(b.Y))
